@@ -12,7 +12,10 @@ from . import gen, pkgio
 from . import oracle_misc as om
 
 NAME_STYLES = [lambda i: 'model_%04d' % i, lambda i: 'm%d' % (i + 1), lambda i: '3%04d_%d' % (9 - i, i),
-               lambda i: ['Zeta', 'alpha', 'B2', 'a10', 'a9', 'Mm', 'mm', 'x_y'][i]]
+               lambda i: ['Zeta', 'alpha', 'B2', 'a10', 'a9', 'Mm', 'mm', 'x_y'][i],
+               # unpadded numbering and names that are prefixes of each other: <name>_sed.fits files then sort differently
+               # from the names themselves ('m10_sed.fits' < 'm1_sed.fits' but 'm1' < 'm10')
+               lambda i: ['m1', 'm10', 'm2', 'm', 'm1A', 'm100', 'm11', 'm.5'][i]]
 
 
 @st.composite
